@@ -280,72 +280,15 @@ theorem Spec.leafPasses_cons2 (fold : σ → σ) (c : Clause σ) (props : NProps
     | leaf _ => rfl
     | object n => cases kv.get a <;> rfl
 
-/-- without any invocation every column is empty -/
-theorem leafPasses_no_inv (fold : σ → σ) (c : Clause σ) : ∀ (path : List σ) (props : NProps σ),
-    Col.leafPasses fold c none (flattenProps props []) path = false
-  | [], _ => by simp [Col.leafPasses]
-  | [a], props => by
-    simp only [Col.leafPasses]
-    rw [find_flattenProps]
-    cases hf : props.find a with
-    | none => rfl
-    | some p =>
-      cases p with
-      | object n => obtain ⟨nm, nl, ps⟩ := n; rfl
-      | leaf l =>
-        cases hfast : l.fast <;> simp [hfast, leafObjs, maxCount]
-  | a :: b :: rest, props => by
-    rw [Col.leafPasses_cons2, find_flattenProps]
-    cases hf : props.find a with
-    | none => rfl
-    | some p =>
-      cases p with
-      | leaf l => cases hfast : l.fast <;> simp [hfast]
-      | object n =>
-        obtain ⟨nm, nl, ps⟩ := n
-        simp only [childInvs, List.flatMap_nil]
-        exact leafPasses_no_inv fold c (b :: rest) ps
-
-theorem any_eq_at {α : Type} (d : α) (g : α → Bool) (l : List α) (k : Nat) (hk : k < l.length)
-    (h : ∀ i, i < l.length → i ≠ k → g (l.getD i d) = false) : l.any g = g (l.getD k d) := by
-  rw [← any_range_getD d g l]
-  cases hg : g (l.getD k d) with
-  | true =>
-    rw [List.any_eq_true]
-    exact ⟨k, List.mem_range.mpr hk, hg⟩
-  | false =>
-    apply any_range_false
-    intro j hj
-    by_cases hjk : j = k
-    · rw [hjk]; exact hg
-    · exact h j hj hjk
-
-theorem Spec.leafPasses_not_carrier (fold : σ → σ) (c : Clause σ) (props : NProps σ) (o : JO σ)
-    (a b : σ) (rest : List σ) (h : carries o a = false) :
-    Spec.leafPasses fold c props o (a :: b :: rest) = false := by
-  rw [Spec.leafPasses_cons2]
-  unfold carries at h
-  cases hf : props.find a with
-  | none => rfl
-  | some p =>
-    cases p with
-    | leaf l => rfl
-    | object n =>
-      cases hg : o.get a with
-      | none => rfl
-      | some v =>
-        simp only [hg, Bool.not_eq_eq_eq_not, Bool.not_false] at h
-        simp [objsOf_of_isNull h]
-
-/-- a dotted path evaluated with "any object" over the columns of a single invocation finds
-exactly the values reachable along the path from the objects of that invocation -/
+/-- a dotted path evaluated with "any object" over the columns finds exactly the values reachable
+along the path from the objects of the path -/
 theorem dotted_any (fold : σ → σ) (c : Clause σ) : ∀ (path : List σ) (props : NProps σ)
-    (par : Option Nat) (v : J σ), singleProps props (objsOf v) = true →
-    Col.leafPasses fold c none (flattenProps props [(par, v)]) path =
-      (objsOf v).any (fun o => Spec.leafPasses fold c props o path)
-  | [], props, par, v, _ => by
+    (objs : List (PObj σ)),
+    Col.leafPasses fold c none (flattenProps props objs) path =
+      objs.any (fun po => Spec.leafPasses fold c props po.2 path)
+  | [], props, objs => by
     simp [Col.leafPasses, Spec.leafPasses]
-  | [a], props, par, v, _ => by
+  | [a], props, objs => by
     simp only [Col.leafPasses, Spec.leafPasses]
     rw [find_flattenProps]
     cases hf : props.find a with
@@ -357,17 +300,8 @@ theorem dotted_any (fold : σ → σ) (c : Clause σ) : ∀ (path : List σ) (pr
         have hname : l.name = a := by simpa [NProp.name] using find_name hf
         cases hfast : l.fast with
         | false => simp [hfast]
-        | true =>
-          simp only [hfast, if_true, Bool.true_and]
-          rw [← any_range_getD .nil _ (objsOf v)]
-          unfold leafObjs
-          rw [maxCount_single, List.any_map]
-          apply any_range_congr
-          intro j hj
-          simp only [Function.comp, List.flatMap_cons, List.flatMap_nil, List.append_nil]
-          rw [List.getD_eq_getElem?_getD, List.getElem?_eq_getElem hj]
-          simp [hname]
-  | a :: b :: rest, props, par, v, hs => by
+        | true => simp [hfast, List.any_map, Function.comp_def, hname]
+  | a :: b :: rest, props, objs => by
     rw [Col.leafPasses_cons2, find_flattenProps]
     cases hf : props.find a with
     | none =>
@@ -381,80 +315,59 @@ theorem dotted_any (fold : σ → σ) (c : Clause σ) : ∀ (path : List σ) (pr
       | object n =>
         obtain ⟨nm, nl, ps⟩ := n
         have hnm : nm = a := by simpa [NProp.name, Nested.name] using find_name hf
-        have hsingle := singleProps_find hs hf
-        have hci : childInvs nm [(par, v)] = carriersFrom nm 0 (objsOf v) := by
-          simp [childInvs]
-        simp only [hci]
-        cases hc : carriersFrom nm 0 (objsOf v) with
-        | nil =>
-          rw [leafPasses_no_inv]
-          symm
-          rw [List.any_eq_false]
-          intro o ho
-          have hnc := carriers_nil hc o ho
-          rw [hnm] at hnc
-          simp [Spec.leafPasses_not_carrier fold c props o a b rest hnc]
-        | cons inv rest' =>
-          cases rest' with
-          | cons x y => simp [hc] at hsingle
-          | nil =>
-            simp only [hc] at hsingle
-            obtain ⟨k, w, hinv, hklt, hget, hwn, hothers⟩ := carriers_single hc
-            subst hinv
-            simp only [Nat.zero_add] at hsingle ⊢
-            rw [dotted_any fold c (b :: rest) ps (some k) w hsingle]
-            rw [any_eq_at .nil _ (objsOf v) k hklt]
-            · simp only [Spec.leafPasses_cons2, hf, Nested.props]
-              rw [← hnm, hget]
-            · intro i hi hne
-              have hnc := hothers i hi hne
-              rw [hnm] at hnc
-              exact Spec.leafPasses_not_carrier fold c props _ a b rest hnc
+        simp only
+        rw [dotted_any fold c (b :: rest) ps (childObjsFrom nm 0 objs)]
+        rw [any_childObjs nm (fun o => Spec.leafPasses fold c ps o (b :: rest)) objs 0]
+        apply any_congr'
+        intro po _
+        simp only [Spec.leafPasses_cons2, hf, Nested.props, childAny, hnm]
+        cases po.2.get a <;> rfl
 
 /-- the simulation at the top level: as `eval_sim` with "no object index", where leaf clauses
 may name dotted paths -/
-theorem eval_top_sim (fold : σ → σ) : ∀ (fuel : Nat) (props : NProps σ) (par : Option Nat)
-    (v : J σ) (f : Filter σ),
-    singleProps props (objsOf v) = true → (objsOf v).length = 1 → f.plainInside = true →
-    Col.eval fold fuel (flattenProps props [(par, v)]) none f =
-      Spec.eval fold fuel props ((objsOf v).getD 0 .nil) f
-  | 0, _, _, _, _, _, _, _ => by simp [Col.eval, Spec.eval]
-  | n + 1, props, par, v, f, hs, h1, hp => by
-    have hi : 0 < (objsOf v).length := by omega
+theorem eval_top_sim (fold : σ → σ) : ∀ (fuel : Nat) (props : NProps σ) (po : PObj σ)
+    (f : Filter σ), f.plainInside = true →
+    Col.eval fold fuel (flattenProps props [po]) none f = Spec.eval fold fuel props po.2 f
+  | 0, _, _, _, _ => by simp [Col.eval, Spec.eval]
+  | n + 1, props, po, f, hp => by
     cases f with
     | leaf path c =>
       simp only [Col.eval, Spec.eval]
-      rw [dotted_any fold c path props par v hs]
-      match hv : objsOf v, h1 with
-      | [o], _ => simp
-    | nested r g =>
+      rw [dotted_any fold c path props [po]]
+      simp
+    | nested r q =>
       simp only [Col.eval, Spec.eval]
-      apply bind_sim props par v 0 none r _ _ hs hi (Or.inr ⟨rfl, h1⟩)
-      intro nm nl ps k w j _ hs' hj
-      exact eval_sim fold n ps (some k) w j (some j) g hs' hj (Or.inl rfl)
-        (by simpa [Filter.plainInside] using hp)
+      rw [bind_none_eq]
+      have := bind_sim props [po] 0 r (fun es' j => Col.eval fold n es' (some j) q)
+        (fun p o => Spec.eval fold n p o q) (by simp)
+        (fun nm nl ps j _ hj => eval_sim fold n ps (childObjsFrom nm 0 [po]) j q hj
+          (by simpa [Filter.plainInside] using hp))
+      simpa using this
     | and fs =>
       simp only [Filter.plainInside] at hp
       simp only [Col.eval, Spec.eval]
       congr 1
       · apply all_congr'
-        intro g hg
-        exact eval_top_sim fold n props par v g hs h1
-          (plainInside_mem hp (List.mem_filter.mp hg).1)
+        intro q hq
+        exact eval_top_sim fold n props po q (plainInside_mem hp (List.mem_filter.mp hq).1)
       · apply all_congr'
         intro r _
-        apply bind_sim props par v 0 none r _ _ hs hi (Or.inr ⟨rfl, h1⟩)
-        intro nm nl ps k w j _ hs' hj
-        exact eval_sim fold n ps (some k) w j (some j) (.and (inners r fs)) hs' hj (Or.inl rfl)
-          (by simpa [Filter.allPlain] using allPlain_inners_of_inside r hp)
+        rw [bind_none_eq]
+        have := bind_sim props [po] 0 r
+          (fun es' j => Col.eval fold n es' (some j) (.and (inners r fs)))
+          (fun p o => Spec.eval fold n p o (.and (inners r fs))) (by simp)
+          (fun nm nl ps j _ hj => eval_sim fold n ps (childObjsFrom nm 0 [po]) j
+            (.and (inners r fs)) hj
+            (by simpa [Filter.allPlain] using allPlain_inners_of_inside r hp))
+        simpa using this
     | or fs =>
       simp only [Filter.plainInside] at hp
       simp only [Col.eval, Spec.eval]
       apply any_congr'
-      intro g hg
-      exact eval_top_sim fold n props par v g hs h1 (plainInside_mem hp hg)
-    | not g =>
+      intro q hq
+      exact eval_top_sim fold n props po q (plainInside_mem hp hq)
+    | not q =>
       simp only [Col.eval, Spec.eval]
-      rw [eval_top_sim fold n props par v g hs h1 (by simpa [Filter.plainInside] using hp)]
+      rw [eval_top_sim fold n props po q (by simpa [Filter.plainInside] using hp)]
 
 end SL.Filter
